@@ -25,3 +25,25 @@ func verifMark(ev, path string, n int) {
 		(*h)(ev, path, n)
 	}
 }
+
+// VerifFaultFn decides whether the file-system effect `ev` (on `path`, share index n) fails (I/O
+// fault injection): a non-nil error is returned by the call site as if the effect had failed.
+type VerifFaultFn func(ev, path string, n int) error
+
+var verifFaultHook atomic.Pointer[VerifFaultFn]
+
+// SetVerifFault installs (or, with nil, removes) the fault-injection callback.
+func SetVerifFault(f VerifFaultFn) {
+	if f == nil {
+		verifFaultHook.Store(nil)
+		return
+	}
+	verifFaultHook.Store(&f)
+}
+
+func verifFault(ev, path string, n int) error {
+	if h := verifFaultHook.Load(); h != nil {
+		return (*h)(ev, path, n)
+	}
+	return nil
+}
